@@ -980,14 +980,18 @@ def c07_boundary(L, rnd, tier):
             if not L.bylen.get(ln):
                 continue
             for mode in ("plain", "fit", "count"):
-                sc = Script("C07-s%d" % n); n += 1
-                sc.create(1, "ext", cap)
-                if mode == "fit":
-                    sc.chunk(1, 8)
-                k1 = L.bylen[ln][n % len(L.bylen[ln])]; k2 = L.bylen[3][0]
-                sc.asm(1, [k1, k2], [L.text[k1], L.text[k2]], count=(8 if mode == "count" else None))
-                sc.asm(1, [k2], [L.text[k2]])
-                out.append(sc)
+                # every start offset the property allows (0 <= k <= n) that lies at the edges of the reserve or of the buffer
+                for k0 in sorted({0, cap - 21, cap - 20, cap - 19, cap - 1, cap} & set(range(0, cap + 1))):
+                    sc = Script("C07-s%d" % n); n += 1
+                    sc.create(1, "ext", cap)
+                    if mode == "fit":
+                        sc.chunk(1, 8)
+                    if k0:
+                        sc.offset(1, k0)
+                    k1 = L.bylen[ln][n % len(L.bylen[ln])]; k2 = L.bylen[3][0]
+                    sc.asm(1, [k1, k2], [L.text[k1], L.text[k2]], count=(8 if mode == "count" else None))
+                    sc.asm(1, [k2], [L.text[k2]])
+                    out.append(sc)
     return out
 
 
